@@ -491,6 +491,77 @@ def calls_diff(old, new, device_changed: bool) -> tuple[str, str] | None:
     return None
 
 
+CH_DEFAULTS = dict(clock_period=1, min_duration=1, max_duration=int(1e8), mod_bandwidth=None,
+                   custom_phase_jump_time=None, max_amp=None, max_abs_detuning=None, min_avg_amp=0,
+                   min_retarget_interval=0, fixed_retarget_t=0, max_targets=None, propagation_dir=None,
+                   bottom_detuning=None, total_bottom_detuning=None)
+EOM_DEFAULTS = dict(multiple_beam_control=True, custom_buffer_time=None, blue_shift_coeff=1.0, red_shift_coeff=1.0)
+
+
+def spec_index(dev: Dev, sch) -> tuple[str, int]:
+    """('dmm'|'ch', index in the spec) of the device channel a declared channel sits on."""
+    if isinstance(sch.channel_obj, DMM):
+        return "dmm", int(sch.channel_id.split("_")[1])
+    return "ch", dev.chan_ids.index(sch.channel_id)
+
+
+def matched_diffs(old_dev: Dev, old, new_dev: Dev, new) -> list:
+    """Spec parameters in which a declared channel's old and new device channel differ, as edits of
+    the new spec that would remove the difference: [(edit, parameter name)]."""
+    out = []
+    for s0, s1 in zip(old._schedule.values(), new._schedule.values()):
+        k0, i = spec_index(old_dev, s0)
+        k1, j = spec_index(new_dev, s1)
+        if k0 != k1:
+            continue
+        c0 = (old_dev.spec["dmms"] if k0 == "dmm" else old_dev.spec["channels"])[i]
+        c1 = (new_dev.spec["dmms"] if k1 == "dmm" else new_dev.spec["channels"])[j]
+        for f, dflt in CH_DEFAULTS.items():
+            v0, v1 = c0.get(f, dflt), c1.get(f, dflt)
+            if v0 != v1 and not (f == "propagation_dir" and (v0 is None) == (v1 is None) and list(v0 or []) == list(v1 or [])):
+                out.append(((k1, j, f, v0), f))
+        if k0 == "ch":
+            e0, e1 = c0.get("eom"), c1.get("eom")
+            if bool(e0) != bool(e1):
+                out.append((("eom", j, "__add__", e0) if e0 else ("eom", j, "__remove__", None), "eom_config"))
+            elif e0 and e1:
+                for f in sorted(set(e0) | set(e1)):
+                    v0, v1 = e0.get(f, EOM_DEFAULTS.get(f)), e1.get(f, EOM_DEFAULTS.get(f))
+                    if v0 != v1:
+                        out.append((("eom", j, f, v0), "eom_config." + f))
+    # the same difference may be listed for several declared channels on one device channel
+    seen, uniq = set(), []
+    for e, nme in out:
+        sig = json.dumps(e, default=str)
+        if sig not in seen:
+            seen.add(sig)
+            uniq.append((e, nme))
+    return uniq
+
+
+EOM_OPTION_PARAMS = {"eom_config." + x for x in (
+    "limiting_beam", "max_limiting_amp", "intermediate_detuning", "controlled_beams", "multiple_beam_control",
+    "blue_shift_coeff", "red_shift_coeff")}
+
+
+def eom_samples_close(old, new) -> bool:
+    """The code's own post-replay criterion, re-evaluated independently: the unmodulated samples of
+    every channel that enables the EOM mode are `np.isclose`."""
+    names = []
+    for c in list(old._calls[1:]) + list(old._to_build_calls):
+        if c.name == "enable_eom_mode":
+            names.append(c.kwargs.get("channel", c.args[0] if c.args else None))
+    for n in names:
+        if n not in old._schedule or n not in new._schedule:
+            return False
+        a, b = old._schedule[n].get_samples(), new._schedule[n].get_samples()
+        for f in ("amp", "det", "phase"):
+            x, y = np.asarray(getattr(a, f), dtype=float), np.asarray(getattr(b, f), dtype=float)
+            if x.shape != y.shape or not np.all(np.isclose(x, y)):
+                return False
+    return True
+
+
 def dmm_renamed(old, new) -> bool:
     """Did the DMM channels get other names, while a call other than the renamed ones names one?"""
     names0 = [n for n, s in old._schedule.items() if isinstance(s.channel_obj, DMM)]
@@ -555,7 +626,13 @@ def check_device_switch(rs: RealSeq, new_spec: dict, strict: bool, edits: list, 
         return res
     res.status = "ok"
     res.nontrivial = not same_device
-    pkey = param_key(edits)
+    # the parameter difference that matters is the one between each declared channel's old and new
+    # device channel (the search may have matched another channel than the edited one)
+    mdiffs = matched_diffs(rs.dev, seq, nd, new)
+    res.info["mdiffs"] = mdiffs
+    pnames = sorted({nme for _, nme in mdiffs})
+    pkey = "+".join(pnames) or param_key(edits)
+    pclass = "eom-options" if pnames and set(pnames) <= EOM_OPTION_PARAMS else "other"
     cause = "dmm-renamed" if dmm_renamed(seq, new) else "params"
     if "tl" not in base_obs:
         base_obs["tl"] = timeline(seq)
@@ -580,12 +657,18 @@ def check_device_switch(rs: RealSeq, new_spec: dict, strict: bool, edits: list, 
             ("eom-setpoint", [c["eom"] for c in t0["chans"]], [c["eom"] for c in tl["chans"]]),
             ("phases", dict(refs=t0["refs"], measured=t0["measured"]), dict(refs=tl["refs"], measured=tl["measured"])),
         ]
+        close = None
         for what, x, y in cats:
             d = diff(x, y, "/" + what)
             if d:
                 same_tl = False
+                if close is None:
+                    try:
+                        close = eom_samples_close(seq, new)
+                    except Exception:  # noqa: BLE001
+                        close = False
                 res.fails.append(F("strict-identical", f"strict switch returned a different {what}: {d}",
-                                   param=pkey, what=what, cause=cause))
+                                   param=pkey, what=what, cause=cause, param_class=pclass, eom_samples_close=close))
         if same_tl:
             if "samples" not in base_obs:
                 try:
@@ -719,7 +802,8 @@ def _ddmin(items: list, bad, budget: int) -> list:
 
 def fail_sig(f: Fail) -> tuple:
     """What a shrunk case must still exhibit: clause + discriminators other than the parameter list."""
-    return (f.clause, f.key.get("what"), f.key.get("cause"), f.key.get("which"), f.key.get("mode"))
+    return (f.clause, f.key.get("what"), f.key.get("cause"), f.key.get("which"), f.key.get("mode"),
+            f.key.get("eom_samples_close"))
 
 
 def shrink(case: dict, sig: tuple) -> dict:
@@ -745,6 +829,21 @@ def shrink(case: dict, sig: tuple) -> dict:
                     if fails(dict(cur, edits=cand)):
                         cur["edits"] = cand
                         e = cand[k]
+        # reduce the difference between matched channels: give the new channel the old value of a
+        # parameter whenever the failure survives it
+        for _ in range(4):
+            try:
+                md = run_case(cur).info.get("mdiffs", [])
+            except Exception:  # noqa: BLE001
+                md = []
+            progress = False
+            for e, _nme in md:
+                cand = cur["edits"] + [tuple(e)]
+                if fails(dict(cur, edits=cand)):
+                    cur["edits"] = cand
+                    progress = True
+            if not progress:
+                break
         cur["ops"] = _ddmin(cur["ops"], lambda ops: fails(dict(cur, ops=ops)), 100)
     return cur
 
@@ -821,8 +920,8 @@ def local_findings() -> list[dict]:
 
 def all_findings() -> list[dict]:
     glob = load_known_findings()
-    ids = {f.get("id") for f in glob}
-    return glob + [f for f in local_findings() if f.get("id") not in ids]
+    ids = {(f.get("id"), f.get("property")) for f in glob}
+    return glob + [f for f in local_findings() if (f.get("id"), f.get("property")) not in ids]
 
 
 def corpus_cases() -> list[dict]:
@@ -948,7 +1047,7 @@ def check(tier: str, seed: int) -> int:
             known_hits[kf["id"]] += 1
             seen_keys.add(pre_key)
             if kf["id"] not in known_replays:
-                p = write_replay(PROP, dict(property=PROP, kind="monitor", known_finding=kf["id"], clause=ff.clause,
+                p = write_replay(PROP, dict(property=PROP, origin="monitor", known_finding=kf["id"], clause=ff.clause,
                                             key=key, message=ff.msg, **small))
                 known_replays[kf["id"]] = str(p)
             return
@@ -957,7 +1056,7 @@ def check(tier: str, seed: int) -> int:
             return
         seen_keys.add(sig)
         seen_keys.add(pre_key)
-        violations.append(dict(property=PROP, kind="monitor", clause=ff.clause, key=key, message=ff.msg, **small))
+        violations.append(dict(property=PROP, origin="monitor", clause=ff.clause, key=key, message=ff.msg, **small))
 
     def account(case: dict, res: Result, origin: str):
         nonlocal nontrivial, evaluations
